@@ -265,6 +265,13 @@ def run(R):
                 run_cmd(sb, ["apply", "--commit", "--output", "json"], "ApplyResult.json", "apply --commit")
                 w0 = s.split("_")[0]
                 run_cmd(sb, ["replace", "--no-regex", w0, w0 + "k", "--commit", "--output", "json"], "Plan", "replace --commit")
+        # a search root whose own directory name matches the term: the "next step" hint about the root directory is a diagnostic
+        with cli.Sandbox(tree + [{"p": s + "_root", "k": "d", "m": 0o755}, {"p": s + "_root/inner_" + s + ".txt", "k": "f", "c": (s + " x\n").encode(), "m": 0o644}]) as sb:
+            for eo in ([], ["--quiet"], ["--preview", "none"]):
+                run_cmd(sb, ["rename", s, t, s + "_root", "--dry-run", "--output", "json"] + eo, "RenameResult.json", "rename <root named with the term> --dry-run", plan_required=True)
+            run_cmd(sb, ["rename", s, t, s + "_root", "--output", "json"], "RenameResult.json", "rename <root named with the term>", plan_required=True)
+            run_cmd(sb, ["plan", t, s, s + "_root", "--output", "json"], "PlanResult.json", "plan <root named with the term>", plan_required=True)
+            run_cmd(sb, ["search", t, s + "_root", "--output", "json"], "PlanResult.json", "search <root named with the term>", plan_required=True)
         # conflicting renames -> exit 1
         with cli.Sandbox(tree + [{"p": t + "_dir", "k": "d", "m": 0o755}]) as sb:
             run_cmd(sb, ["rename", s, t, "--output", "json"], "RenameResult.json", "rename (occupied destination)", expect_fail=True)
